@@ -117,12 +117,19 @@ pub fn monthday_matches(r: &MonthdayRange, d: NaiveDate) -> Result<bool, Abstain
     match r {
         MonthdayRange::Month { range, year } => {
             let (a, b) = (*range.start() as u32, *range.end() as u32);
-            if year.is_some() && a > b {
-                return Err(Abstain("dated month range that wraps"));
-            }
             let m = d.month();
-            let in_months = if a <= b { a <= m && m <= b } else { m >= a || m <= b };
-            Ok(year.map(|y| y as i32 == d.year()).unwrap_or(true) && in_months)
+            match year {
+                None => Ok(if a <= b { a <= m && m <= b } else { m >= a || m <= b }),
+                Some(y) => {
+                    let y = *y as i32;
+                    if a <= b {
+                        Ok(d.year() == y && a <= m && m <= b)
+                    } else {
+                        // "2025 Dec-Mar": December 2025 to March 2026
+                        Ok((d.year() == y && m >= a) || (d.year() == y + 1 && m <= b))
+                    }
+                }
+            }
         }
         MonthdayRange::Date { start: (sd, so), end: (ed, eo) } => {
             for o in [so, eo] {
